@@ -171,10 +171,10 @@ def history_sequences(seed, n_seq, backend):
             c = fol.Context()
             if backend == 'autoref':
                 c.bdd = autoref.BDD()
-            c.declare(x=(0, 3), y=(0, 2), b='bool')
-            names = ['x', 'y', 'b']
+            c.declare(x=(0, 3), y=(0, 2), b='bool', z=(0, 3))
+            names = ['x', 'y', 'b', 'z']
             den = denote.Den(c.vars, lambda q: None)
-            doms = dict(x=range(0, 4), y=range(0, 4), b=[False, True])
+            doms = dict(x=range(0, 4), y=range(0, 4), b=[False, True], z=range(0, 4))
             pts = [dict(zip(names, v)) for v in itertools.product(*[doms[k] for k in names])]
             store = list()     # (node, truth table)
 
@@ -183,7 +183,7 @@ def history_sequences(seed, n_seq, backend):
             extra = 0
             for step in range(14):
                 n += 1
-                op = rnd.choice(['add', 'add', 'declare', 'quantify', 'let', 'print', 'reorder', 'gc', 'copy', 'apply'])
+                op = rnd.choice(['add', 'add', 'declare', 'quantify', 'let', 'print', 'reorder', 'gc', 'copy', 'apply', 'ref', 'swap'])
                 try:
                     if op == 'add' or not store:
                         u = c.add_expr(rnd.choice(pool_formulas))
@@ -199,6 +199,27 @@ def history_sequences(seed, n_seq, backend):
                         u, _ = rnd.choice(store)
                         v = c.let(dict(y=rnd.choice([0, 1, 2])), u)
                         store.append((v, tt(v)))
+                    elif op == 'ref':
+                        # an earlier BDD (possibly a constant) referred to by node in a formula
+                        u, t0 = rnd.choice(store + [(c.false, tuple(False for _ in pts)), (c.true, tuple(True for _ in pts))])
+                        tmpl, fn_ = rnd.choice([(r'{u} /\ b', lambda a, p: a and p['b']), (r'~ {u} \/ (x = 1)', lambda a, p: (not a) or p['x'] == 1),
+                                                (r'{u} <=> b', lambda a, p: a == p['b'])])
+                        r = c.add_expr(tmpl.format(u=u))
+                        want = tuple(fn_(a, p) for a, p in zip(t0, pts))
+                        if tt(r) != want:
+                            fails.append(dict(name='a formula that refers to an earlier BDD by node means that BDD (also when it is a constant)',
+                                              formula=tmpl.format(u=u), backend=backend, seq=sidx, step=step, seed=seed))
+                        store.append((r, want))
+                    elif op == 'swap':
+                        # simultaneous renaming of same-typed variables (x, y both 2-bit unsigned here)
+                        u, t0 = rnd.choice(store)
+                        if c.support(u) <= set(names):
+                            r = c.let(dict(x='z', z='x'), u)
+                            idx = {tuple(p[k] for k in names): i for i, p in enumerate(pts)}
+                            want = tuple(t0[idx[(p['z'], p['y'], p['b'], p['x'])]] for p in pts)
+                            if tt(r) != want:
+                                fails.append(dict(name='let({x: z, z: x}) is the simultaneous renaming', backend=backend, seq=sidx, step=step, seed=seed))
+                            store.append((r, want))
                     elif op == 'apply':
                         (u, _), (v, _) = rnd.choice(store), rnd.choice(store)
                         r = c.apply(rnd.choice(['and', 'or', 'xor']), u, v)
@@ -223,7 +244,7 @@ def history_sequences(seed, n_seq, backend):
                         other = fol.Context()
                         if backend == 'autoref':
                             other.bdd = autoref.BDD()
-                        other.declare(x=(0, 3), y=(0, 2), b='bool')
+                        other.declare(x=(0, 3), y=(0, 2), b='bool', z=(0, 3))
                         u, t0 = rnd.choice(store)
                         v = c.copy(u, other)
                         if tuple(other.let(p, v) == other.true for p in pts) != t0:
@@ -240,4 +261,59 @@ def history_sequences(seed, n_seq, backend):
                     break
         return dict(records=[], stats=dict(), functions={}, bounded=dict(
             evaluations=n, backend=backend, failures=fails[:6]))
+    return run
+
+
+def copy_isolation(backend):
+    """`copy.copy(automaton)` shares the manager but is a separate context:
+    operator definitions made afterwards in one do not change the other."""
+    def run():
+        import copy
+        import dd.autoref as autoref
+        fails = list()
+        n = 0
+        exprs = ['x < 2', 'x > 1', r'a /\ (x = 0)', 'TRUE', 'FALSE', '~ a']
+        names = ['x', 'a']
+        pts = [dict(x=xv, a=av) for xv in range(4) for av in (False, True)]
+        sem = {'x < 2': lambda p: p['x'] < 2, 'x > 1': lambda p: p['x'] > 1, r'a /\ (x = 0)': lambda p: p['a'] and p['x'] == 0,
+               'TRUE': lambda p: True, 'FALSE': lambda p: False, '~ a': lambda p: not p['a']}
+        for e1, e2 in itertools.permutations(exprs, 2):
+            for order in (0, 1):
+                n += 1
+                aut = trl.Automaton()
+                if backend == 'autoref':
+                    aut.bdd = autoref.BDD()
+                aut.declare_variables(x=(0, 3), a='bool')
+                aut.define('base == x = 1')
+                cp = copy.copy(aut)
+                steps = [(aut, e1), (cp, e2)]
+                if order:
+                    steps.reverse()
+                try:
+                    for ctx_, e in steps:
+                        ctx_.define(f'p == {e}')
+                    for ctx_, e, tag in ((aut, e1, 'original'), (cp, e2, 'copy')):
+                        for how in ('op_bdd', 'init', 'define'):
+                            if how == 'op_bdd':
+                                u = ctx_.op_bdd['p']
+                                want = [sem[e](p) for p in pts]
+                            elif how == 'init':
+                                ctx_.init['k'] = 'p'
+                                u = ctx_.init['k']
+                                want = [sem[e](p) for p in pts]
+                            else:
+                                ctx_.define(r'q == p \/ a')
+                                u = ctx_.op_bdd['q']
+                                want = [sem[e](p) or p['a'] for p in pts]
+                            got = [ctx_.let(p, u) == ctx_.true for p in pts]
+                            if got != want and len(fails) < 6:
+                                fails.append(dict(name='an operator defined in an automaton after it was copied means, in that automaton, its own definition',
+                                                  where=tag, how=how, original_defines=e1, copy_defines=e2,
+                                                  order='copy first' if order else 'original first', backend=backend))
+                except Exception as e:
+                    if len(fails) < 6:
+                        fails.append(dict(name='define / lookup of operators in an automaton and its copy run', error=repr(e)[:200], backend=backend))
+        return dict(records=[], stats=dict(), functions={
+            'omega.symbolic.temporal.Automaton.__copy__': dict(source_lines=0, cut={}, stubs=[], dropped='run natively: bounded')},
+            bounded=dict(evaluations=n, backend=backend, failures=fails[:6]))
     return run
